@@ -10,8 +10,6 @@ Local Open Scope Z_scope.
 (* ------------------------------------------------------------------ locator names are identified back *)
 Lemma lower_pr_uint u : map lower (pr_uint u) = pr_uint u.
 Proof. induction u; simpl; try rewrite IHu; reflexivity. Qed.
-Lemma span_pr_uint u : span_digits (pr_uint u) = pr_uint u.
-Proof. induction u; simpl; try rewrite IHu; reflexivity. Qed.
 
 Lemma atoi_print_pos p : atoi (print_Z (Zpos p)) = Zpos p.
 Proof.
